@@ -6,12 +6,13 @@ tag=sys.argv[1]; pids=sys.argv[2:]
 props={}
 for l in open('/verif/properties.jsonl'):
     d=json.loads(l); props[d['id']]=d
-t=open('/verif/tools/benignprompt_template%s.txt'%('2' if tag.startswith('b2') else '')).read()
+t=open('/verif/tools/benignprompt_template%s.txt'%('3' if tag.startswith('b3') else '2' if tag.startswith('b2') else '')).read()
+targets=json.load(open('/verif/tools/benign_targets.json')) if tag.startswith('b3') else {}
 os.makedirs('/tmp/seedprompts',exist_ok=True)
 for pid in pids:
     d=props[pid]; wt='benign_'+pid.lower()+tag
     mech='; '.join('%s (%s)'%(m['name'],m['where']) for m in d['anchors']['mechanism'])
     body='%s: %s\n%s'%(pid,d['title'],d['statement'])
     hint='Hint on where the property is implemented: %s. Files: %s.'%(mech,', '.join(d['anchors'].get('files',[])))
-    open('/tmp/seedprompts/%s.txt'%wt,'w').write(t.replace('/tmp/WT','/tmp/'+wt).replace('PROPTEXT',body).replace('PID',pid).replace('HINT',hint))
+    open('/tmp/seedprompts/%s.txt'%wt,'w').write(t.replace('/tmp/WT','/tmp/'+wt).replace('PROPTEXT',body).replace('PID',pid).replace('HINT',hint).replace('TARGETS',targets.get(pid,'')))
     print(wt)
